@@ -247,7 +247,7 @@ theorem tryAnswer_adj (g : G σ N C) (hadj : Adj g) (i : Nat) (finished : Bool) 
 
 /-- every step keeps the separator ranges of neighbours adjacent -/
 theorem adj_step (U : Upd σ N C) (cfg : Cfg) (db : List (DbN N)) (g : G σ N C) (i : Nat) (hi : i < g.n)
-    (hinv : AInv (absG g)) (hadj : Adj g) : AdjOK (step U cfg db g i) := by
+    (hinv : AInv (absG g)) (hadj : Adj g) (hm : cfg.highMax = false) : AdjOK (step U cfg db g i) := by
   have q0 : SameQ (g.ws i) (g.ws i) := ⟨rfl, rfl, rfl, rfl, rfl⟩
   cases hpc : (g.ws i).pc with
   | done => unfold step; simp only [hpc]; trivial
@@ -317,7 +317,7 @@ theorem adj_step (U : Upd σ N C) (cfg : Cfg) (db : List (DbN N)) (g : G σ N C)
             (Or.inl (effRight_of _ _ rfl rfl)) rfl g.chans
         · trivial
   | wait k fin =>
-    unfold step; simp only [hpc]
+    unfold step; simp only [hpc, takeRespC_asis cfg hm]
     cases hr : (g.ws i).resp with
     | none => trivial
     | some r =>
@@ -362,7 +362,8 @@ theorem adj_step (U : Upd σ N C) (cfg : Cfg) (db : List (DbN N)) (g : G σ N C)
             · exact tl
 
 /-- the adjacency along every schedule -/
-theorem adj_runSched (U : Upd σ N C) (cfg : Cfg) (db : List (DbN N)) (hs : cfg.staleHigh = false) :
+theorem adj_runSched (U : Upd σ N C) (cfg : Cfg) (db : List (DbN N)) (hs : cfg.staleHigh = false)
+    (hm : cfg.highMax = false) :
     ∀ (s : List Nat) (g : G σ N C), AInv (absG g) → Adj g →
       match runSched U cfg db s g with
       | .inr g' => Adj g'
@@ -372,14 +373,14 @@ theorem adj_runSched (U : Upd σ N C) (cfg : Cfg) (db : List (DbN N)) (hs : cfg.
     unfold runSched
     by_cases hi : i < g.n
     · rw [if_pos hi]
-      have h1 := step_ok U cfg db g i hi hinv hs
-      have h2 := adj_step U cfg db g i hi hinv h
+      have h1 := step_ok U cfg db g i hi hinv hs hm
+      have h2 := adj_step U cfg db g i hi hinv h hm
       cases hst : step U cfg db g i with
       | ok g' =>
         rw [hst] at h1 h2
-        exact adj_runSched U cfg db hs s g' (ATrans.inv hinv h1) h2
-      | blocked => exact adj_runSched U cfg db hs s g hinv h
+        exact adj_runSched U cfg db hs hm s g' (ATrans.inv hinv h1) h2
+      | blocked => exact adj_runSched U cfg db hs hm s g hinv h
       | panic site => trivial
-    · rw [if_neg hi]; exact adj_runSched U cfg db hs s g hinv h
+    · rw [if_neg hi]; exact adj_runSched U cfg db hs hm s g hinv h
 
 end Nomt.ExtRange
